@@ -223,10 +223,36 @@ def _k(case):
     return k
 
 
+T_TOT = [1000]   # process time of the runs of the current case (set per case, see `_final_event`)
+
+
 def _opcond():
     from ethz_snow.operatingConditions import OperatingConditions
 
-    return OperatingConditions(t_tot=1000, cooling={"rate": 0.1, "start": 5, "end": -45})
+    return OperatingConditions(t_tot=T_TOT[0], cooling={"rate": 0.1, "start": 5, "end": -45})
+
+
+def _final_event(case):
+    """`final = {event, rank}`: choose the process time so that a nucleation / solidification stamp is
+    made in the FINAL time step of the run (the run is cut off mid-freezing): from a long reference run,
+    t_tot = t_nuc_i - dt (nucleation in the step taken from t_tot) or t_nuc_i + t_sol_i (flagged solid at t_tot)."""
+    f = case.get("final")
+    if not f:
+        return None
+    new = case["ops"][0]
+    T_TOT[0] = 20000      # long reference run: everything freezes
+    try:
+        S = _flake(case, new[1], new[2:5])
+        S.run()
+    finally:
+        T_TOT[0] = 1000
+    tn, ts = S.stats["t_nucleation"], S.stats["t_solidification"]
+    cand = sorted(float(x) - DT for x in tn if not np.isnan(x)) if f["event"] == "nuc" else \
+        sorted(float(a + b) for a, b in zip(tn, ts) if not np.isnan(a + b))
+    cand = [c for c in cand if c >= DT]
+    if not cand:
+        return None
+    return cand[min(f["rank"], len(cand) - 1)]
 
 
 DT = 5
@@ -315,8 +341,18 @@ def run_impl(case):
         if case["kind"] == "history":
             return {"raise": None, "ops": _run_history(case)}
         if case["kind"] == "record":
-            return {"raise": None, "variants": [{"store": s, "ops": _run_history(case, _store(s))}
-                                                for s in case["stores"]]}
+            t_tot = _final_event(case)
+            try:
+                if t_tot is not None:
+                    T_TOT[0] = t_tot
+                obs = {"raise": None, "t_tot": T_TOT[0],
+                       "variants": [{"store": s, "ops": _run_history(case, _store(s))} for s in case["stores"]]}
+            finally:
+                T_TOT[0] = 1000
+            if t_tot is not None:
+                # is there really a stamp from the last step?  (all-vials recording run)
+                obs["final_stamp"] = _has_final_stamp(case, t_tot)
+            return obs
         if case["kind"] == "fall":
             o = _run_fall(case)
             o["raise"] = None
@@ -326,6 +362,18 @@ def run_impl(case):
 
         return {"raise": core.exc_class(e), "tb": traceback.format_exc()[-800:]}
     raise ValueError("unknown case kind")
+
+
+def _has_final_stamp(case, t_tot):
+    T_TOT[0] = t_tot
+    try:
+        new = case["ops"][0]
+        S = _flake(case, new[1], new[2:5], "all")
+        S.run()
+    finally:
+        T_TOT[0] = 1000
+    tn, ts = S.stats["t_nucleation"], S.stats["t_solidification"]
+    return bool(np.any(tn == t_tot + DT) or np.any(tn + ts == t_tot))
 
 
 def _store(s):
@@ -465,6 +513,7 @@ def predicates(case, impl):
                            f"(schedule used: {o['sched']})"))
                 break
     elif case["kind"] == "record":
+        var = var + ("|final-step-event" if case.get("final") else "")
         base = impl["variants"][0]
         for v in impl["variants"][1:]:
             for a, b in zip(base["ops"], v["ops"]):
@@ -497,6 +546,8 @@ def predicates(case, impl):
 
 def classify(case, impl):
     tags = [f"kind={case['kind']}", "sigma=" + ("pos" if _sigma_pos(case) else str(case["sigma"]))]
+    if case.get("final"):
+        tags.append(f"final-step {case['final']['event']} stamp: " + ("yes" if impl.get("final_stamp") else "no"))
     if case["kind"] == "history":
         tags.append(f"len={len(case['ops'])}")
         tags.append(f"runs={sum(1 for o in case['ops'] if o[0] == 'run')}")
@@ -516,7 +567,7 @@ def nontrivial(case, impl):
     if case["kind"] == "history":
         return any(o["op"][0] == "run" and o["nucleated"] > 0 for o in impl["ops"])
     if case["kind"] == "record":
-        return True
+        return bool(impl.get("final_stamp", True))
     return any(t["nucleated"] > 0 for p in impl["passes"] for t in p["tasks"])
 
 
@@ -560,9 +611,21 @@ def _record(rng):
     return dict(kind="record", sigma=sigma, ops=ops, stores=[None] + rng.sample(stores[1:], 3))
 
 
+def _record_final(rng):
+    """recording vs not recording when an event is stamped in the very last time step"""
+    nv = rng.choice([[3, 3, 1], [2, 2, 1], [2, 3, 1]])
+    N = nv[0] * nv[1]
+    stores = [None, "all", [rng.randrange(N)], "corner", "uniform_2", [0, N - 1]]
+    return dict(kind="record", sigma=rng.choice([0.1, 0, 0.2]), ops=[["new", rng.choice(SEEDS + [3, 11])] + nv, ["run"]],
+                stores=[None, "all"] + rng.sample(stores[2:], 2),
+                final=dict(event=rng.choice(["nuc", "sol"]), rank=rng.randrange(N)))
+
+
 def cases(rng, tier):
     quick = tier == "quick"
     maxlen = 6 if quick else 9
+    for _ in range(40 if quick else 400):
+        yield _record_final(rng)
     for _ in range(1200 if quick else 12000):
         yield _history(rng, maxlen)
     for _ in range(60 if quick else 400):
